@@ -198,13 +198,44 @@ def run(corrupt=None):
             ck.nontrivial("kn:" + absstate.key_str(key))
 
     # ---- recorded chains: alpha flow
+    import contextlib
+
+    @contextlib.contextmanager
+    def density_watch(found):
+        """Every particle of every final swarm: the fixed-root density it carries must be the density of its tree
+        under the concentration value that is current at that moment."""
+        from phyclone.mcmc.particle_gibbs import ParticleGibbsTreeSampler as P
+        orig = P._sample_tree_from_swarm
+
+        def sel(self, swarm):
+            td = self.kernel.tree_dist
+            for p_ in swarm.particles:
+                want, got = float(td.log_p_one(p_.tree)), float(p_.log_p_one)
+                found["n"] += 1
+                if abs(want - got) > 1e-9 * (1 + abs(want)):
+                    found["bad"].append((got, want, float(td.prior.alpha)))
+            return orig(self, swarm)
+
+        P._sample_tree_from_swarm = sel
+        try:
+            yield
+        finally:
+            P._sample_tree_from_swarm = orig
+
     nflow = 0
     for k, o in enumerate([dict(proposal=p, outlier_prob=op, num_iters=(12 if thorough else 6), thin=2, subtree_update_prob=0.3)
                            for p in chainlib.PROPOSALS for op in (0, 0.3)]):
-        res = chainlib.run_one(4, 1, 50 * (1 + ck.seed) + k, o, grid=7)
+        found = {"n": 0, "bad": []}
+        with density_watch(found):
+            res = chainlib.run_one(4, 1, 50 * (1 + ck.seed) + k, dict(o, num_iters=max(o["num_iters"], 20)), grid=7)
         if res["error"]:
             ck.violation("C13|chain|exception", "chain aborted: %s" % res["error"], {"options": o})
             continue
+        ck.evaluations += found["n"]
+        if found["bad"]:
+            g, w, a = found["bad"][0]
+            ck.violation("C13|chain|stale_density", "%d of %d particles carry a fixed-root density that is not the density of their tree under the current concentration value (e.g. %.10g vs %.10g at alpha %.6g)" % (
+                len(found["bad"]), found["n"], g, w, a), {"options": o})
         cur_alpha = 1.0
         pending = None
         for e in res["events"]:
